@@ -441,6 +441,98 @@ theorem filter_keep_unfiltered (a : Args) (hoc : a.onlyClientEvents = false) (ho
 theorem effArgs_delay (r : RunIn) (d : Nat) : (r.effArgs d).network.delay = d := by
   unfold RunIn.effArgs; split <;> rfl
 
+/-! ### vocabulary of the C19 monitor -/
+
+/-- a `sim` call has no `only_client_events` parameter: a run through `sim` is recorded with
+    that flag off -/
+def RunIn.WF (r : RunIn) : Prop := r.adv = false → r.args.onlyClientEvents = false
+
+instance (r : RunIn) : Decidable r.WF := by unfold RunIn.WF; infer_instance
+
+theorem sameBase_of_sameArgs {a b : RunIn} (h : C19.sameArgs a b = true) : C19.sameBase a b = true := by
+  unfold C19.sameArgs at h
+  simp only [Bool.and_eq_true] at h
+  exact h.1.1.1
+
+/-- runs with the same arguments (in the monitor's sense) have the same effective arguments -/
+theorem effArgs_eq_of_sameArgs {a b : RunIn} (d : Nat) (h : C19.sameArgs a b = true) : a.effArgs d = b.effArgs d := by
+  unfold C19.sameArgs C19.sameBase at h
+  simp only [Bool.and_eq_true, beq_iff_eq] at h
+  obtain ⟨⟨⟨hsb, hmtl⟩, hoc⟩, hon⟩ := h
+  obtain ⟨⟨⟨⟨⟨⟨⟨⟨⟨hadv, hpps⟩, _⟩, _⟩, hmsi⟩, hcont⟩, h1⟩, h2⟩, h3⟩, h4⟩ := hsb
+  unfold RunIn.effArgs
+  rw [hadv, hpps]
+  cases hx : a.args
+  cases hy : b.args
+  rw [hx] at hmsi hcont h1 h2 h3 h4 hmtl hoc hon
+  rw [hy] at hmsi hcont h1 h2 h3 h4 hmtl hoc hon
+  simp only [] at hmsi hcont h1 h2 h3 h4 hmtl hoc hon
+  subst hmsi hcont h1 h2 h3 h4 hmtl hoc hon
+  rfl
+
+theorem uncapped_eq_self (a : Args) (h : a.maxTraceLength = 0) : a.uncapped = a := by
+  cases a
+  simp only [Args.uncapped] at h ⊢
+  subst h
+  rfl
+
+/-- for a reference run `u` (no cap, no filters) and a run `f` with the same base, the effective
+    arguments of `u` are those of `f` without cap and filters, and the monitor reads `f`'s own
+    cap and filters -/
+theorem effArgs_reference {u f : RunIn} (d : Nat) (href : C19.isReference u = true) (hsb : C19.sameBase u f = true)
+    (hwf : f.WF) :
+    u.effArgs d = (f.effArgs d).uncapped.unfiltered ∧
+    (f.effArgs d).maxTraceLength = f.args.maxTraceLength ∧
+    (f.effArgs d).onlyClientEvents = f.args.onlyClientEvents ∧
+    (f.effArgs d).onlyNetworkActivity = f.args.onlyNetworkActivity := by
+  unfold C19.sameBase at hsb
+  unfold C19.isReference at href
+  simp only [Bool.and_eq_true, beq_iff_eq, Bool.not_eq_true'] at hsb href
+  obtain ⟨⟨⟨⟨⟨⟨⟨⟨⟨hadv, hpps⟩, _⟩, _⟩, hmsi⟩, hcont⟩, h1⟩, h2⟩, h3⟩, h4⟩ := hsb
+  obtain ⟨⟨hmtl, hoc⟩, hon⟩ := href
+  unfold RunIn.WF at hwf
+  unfold RunIn.effArgs
+  rw [hadv, hpps]
+  cases hx : u.args
+  cases hy : f.args
+  rw [hx] at hmsi hcont h1 h2 h3 h4 hmtl hoc hon
+  rw [hy] at hmsi hcont h1 h2 h3 h4 hwf
+  simp only [] at hmsi hcont h1 h2 h3 h4 hmtl hoc hon hwf
+  subst hmsi hcont h1 h2 h3 h4 hmtl hoc hon
+  cases hfa : f.adv with
+  | true => exact ⟨rfl, rfl, rfl, rfl⟩
+  | false =>
+    have := hwf hfa
+    subst this
+    exact ⟨rfl, rfl, rfl, rfl⟩
+
+theorem project_shift (on oc : Bool) (cap : Nat) (t0 : Int) (l : List SimEvent) :
+    C19.project on oc cap (l.map (SimEvent.shift t0)) = (C19.project on oc cap l).map (SimEvent.shift t0) := by
+  unfold C19.project takeCap
+  rw [filter_keepObs_shift]
+  split
+  · rw [List.map_take]
+  · rfl
+
+section
+variable {σ : Type} (ρ : Oracle σ)
+
+/-- without a length cap the stop reason does not depend on the filters -/
+theorem simAdvanced_stop_unfiltered (budget : Nat) (mc ms : List Machine) (sq : SimQueue) (a : Args) (orc : σ)
+    (hcap : a.maxTraceLength = 0) :
+    (simAdvanced ρ budget mc ms sq a orc).stop = (simAdvanced ρ budget mc ms sq a.unfiltered orc).stop := by
+  unfold simAdvanced
+  rw [initState_unfiltered]
+  cases hi : initState ρ mc ms sq a orc with
+  | error f => rfl
+  | ok st =>
+    simp only []
+    have hfu : loopFuel a.unfiltered budget = loopFuel a budget := rfl
+    rw [hfu, finish_stop, finish_stop,
+      loop_filter_indep ρ a a.unfiltered (sameButFilters_unfiltered a) hcap (loopFuel a budget) st 0 0 0]
+
+end
+
 /-! ### concrete cases for the non-vacuity examples and witnesses
 
 The returned trace of the model goes through `List.mergeSort` (well-founded recursion, which the
@@ -458,6 +550,19 @@ theorem modelObs_of_stream {σ : Type} (ρ : Oracle σ) (budget : Nat) (c : Case
     (isPanic_false_no_fault hp)
   unfold modelOut
   rw [this]
+
+/-- the observation, computed through the stream (kernel-evaluable form of `modelObs`) -/
+def modelObsS {σ : Type} (ρ : Oracle σ) (budget : Nat) (c : CaseIn) (r : RunIn) (orc : σ) : ObsRun :=
+  ⟨r, if (modelOut ρ budget c r orc).stop.isPanic then (modelOut ρ budget c r orc).res (obsT0 c)
+      else .ok ((((modelOut ρ budget c r orc).stream.filter (r.effArgs c.delay).keep).map (·.ev)).map
+        (SimEvent.shift (obsT0 c)))⟩
+
+theorem modelObs_eq_S {σ : Type} (ρ : Oracle σ) (budget : Nat) (c : CaseIn) (r : RunIn) (orc : σ) :
+    modelObs ρ budget c r orc = modelObsS ρ budget c r orc := by
+  unfold modelObsS
+  cases hp : (modelOut ρ budget c r orc).stop.isPanic with
+  | true => rfl
+  | false => exact modelObs_of_stream ρ budget c r orc hp
 
 /-- 1000.0 as f64 -/
 def demoDist : Dist := { dist := .uniform 0x408F400000000000 0x408F400000000000, start := 0, max := 0 }
@@ -489,7 +594,128 @@ def demoRun (name : String) (mtl msi : Nat) (cont oc on : Bool) : RunIn :=
 def demoSim (mtl : Nat) (on : Bool) : RunIn :=
   { name := "sim", adv := false, pps := none, args := demoArgs mtl 0 false false on, seed := none }
 
+/-- the runs of a generated case, in small: main run, its repetition, the uncapped unfiltered
+    reference, the three filter settings, a capped filtered run, and a run through `sim` -/
+def demoRuns : List (RunIn × Unit) :=
+  [(demoRun "main" 5 40 true true false, ()), (demoRun "det" 5 40 true true false, ()),
+   (demoRun "u" 0 40 true false false, ()), (demoRun "f10" 0 40 true true false, ()),
+   (demoRun "f01" 0 40 true false true, ()), (demoRun "f11" 0 40 true true true, ()),
+   (demoRun "cap" 3 40 true false true, ()), (demoSim 7 false, ())]
+
+/-- an oracle whose sampler answers with its state, read as the bits of an f64 -/
+def natOracle : Oracle Nat := ⟨fun s => (0, s), fun _ s => (UInt64.ofNat s, s)⟩
+
+/-- the padding machine with a timeout that is really sampled: Uniform(1000.0, 3000.0) µs -/
+def widePad : Machine :=
+  { demoPad with states := [
+      { action := some (.sendPadding false false
+          { dist := .uniform 0x408F400000000000 0x40A7700000000000, start := 0, max := 0 } none),
+        counterA := none, counterB := none,
+        transitions := [none, none, none, some [{ target := 0, prob := 0x3f800000 }], none,
+                        none, none, none, none, none, none, none, none] }] }
+
+def wideCase : CaseIn := { demoCase with mc := [widePad] }
+
 /-- two client packets, the second one exactly `Duration::MAX` after the first; no machines, delay 0 -/
 def farCase : CaseIn := { mc := [], ms := [], trace := [⟨0, .s⟩, ⟨durMax, .s⟩], delay := 0 }
 
 end Mb.Sim
+
+/-! ### what the C15 and C19 monitors compare -/
+
+namespace Mb.C15
+open Mb Mb.Sim Mb.SimSpec
+
+/-- the monitor returns no failure on an observed trace that is ordered and — when unfiltered —
+    satisfies the causality and the conservation predicate with the monitor's own "complete" flag -/
+theorem monitor_none_of {c : CaseIn} {r : ObsRun} {tr : List SimEvent} (hres : r.res = .ok tr)
+    (h1 : sortedByTime tr = true)
+    (h2 : (r.run.effArgs c.delay).onlyClientEvents = false → (r.run.effArgs c.delay).onlyNetworkActivity = false →
+      causality c.delay tr = true ∧
+      conservation (normalLines c.trace)
+        (((r.run.effArgs c.delay).maxTraceLength == 0 || decide (tr.length < (r.run.effArgs c.delay).maxTraceLength))
+          && ((r.run.effArgs c.delay).maxSimIterations == 0 || decide (tr.length < (r.run.effArgs c.delay).maxSimIterations)))
+        tr = true) :
+    C15.monitor c r = none := by
+  unfold C15.monitor
+  rw [hres]
+  simp only [h1, Bool.not_true, Bool.false_eq_true, if_false]
+  cases hoc : (r.run.effArgs c.delay).onlyClientEvents with
+  | true => simp
+  | false =>
+    cases hon : (r.run.effArgs c.delay).onlyNetworkActivity with
+    | true => simp
+    | false =>
+      obtain ⟨hc, hk⟩ := h2 hoc hon
+      simp only [Bool.or_self, Bool.false_eq_true, if_false, hc, Bool.not_true, hk]
+
+end Mb.C15
+
+namespace Mb.C19
+open Mb Mb.Sim Mb.SimSpec
+
+/-- the "panic" entries of the monitor's output: one per run whose result is a panic -/
+def panicMsgs (c : CaseIn) (runs : List ObsRun) : List String :=
+  runs.filterMap fun r => match r.res with
+    | .panic cls => some s!"run {r.run.name}: panic {cls} (pps={r.run.pps} delay={c.delay})"
+    | .ok _ => none
+
+theorem append3_nil (A B C D : List String) (hB : B = []) (hC : C = []) (hD : D = []) : A ++ B ++ C ++ D = A := by
+  subst hB hC hD; simp
+
+/-- what the monitor compares: if every returned trace respects its bounds, runs with the same
+    arguments have the same result, and every capped / filtered run with the base of an
+    uncapped unfiltered reference run returns the projection of the reference trace, the monitor
+    reports the panics and nothing else -/
+theorem monitor_eq_panics_of (c : CaseIn) (runs : List ObsRun)
+    (hb : ∀ r ∈ runs, ∀ tr, r.res = .ok tr → boundsOK (r.run.effArgs c.delay) tr = true)
+    (hd : ∀ r ∈ runs, ∀ r' ∈ runs, sameArgs r.run r'.run = true → r.res = r'.res)
+    (hp : ∀ u ∈ runs, ∀ f ∈ runs, isReference u.run = true → isReference f.run = false →
+      sameBase u.run f.run = true → ∀ ut ft, u.res = .ok ut → f.res = .ok ft →
+      ft = project f.run.args.onlyNetworkActivity f.run.args.onlyClientEvents f.run.args.maxTraceLength ut) :
+    C19.monitor c runs = panicMsgs c runs := by
+  unfold C19.monitor panicMsgs
+  simp only []
+  apply append3_nil
+  · rw [List.filterMap_eq_nil_iff]
+    intro r hr
+    cases hres : r.res with
+    | panic cls => rfl
+    | ok tr => simp only [hb r hr tr hres, if_true]
+  · rw [List.flatMap_eq_nil_iff]
+    rintro ⟨r, i⟩ hri
+    simp only []
+    rw [List.filterMap_eq_nil_iff]
+    intro r' hr'
+    have hr : r ∈ runs := List.fst_mem_of_mem_zipIdx hri
+    have hr'' : r' ∈ runs := List.mem_of_mem_drop hr'
+    cases hsa : sameArgs r.run r'.run with
+    | false => simp
+    | true => simp [hd r hr r' hr'' hsa]
+  · rw [List.flatMap_eq_nil_iff]
+    intro u hu
+    cases href : isReference u.run with
+    | false => simp
+    | true =>
+      simp only [Bool.not_true, Bool.false_eq_true, if_false]
+      cases hures : u.res with
+      | panic cls => rfl
+      | ok ut =>
+        simp only []
+        rw [List.filterMap_eq_nil_iff]
+        intro f hf
+        cases hfr : isReference f.run with
+        | true => simp
+        | false =>
+          cases hsb : sameBase u.run f.run with
+          | false => simp
+          | true =>
+            simp only [Bool.false_or, Bool.not_true, Bool.false_eq_true, if_false]
+            cases hfres : f.res with
+            | panic cls => rfl
+            | ok ft =>
+              simp only []
+              rw [hp u hu f hf href hfr hsb ut ft hures hfres]
+              simp
+
+end Mb.C19
